@@ -16,6 +16,7 @@ import Sqfs.Proofs.BlockWriterSpec
 import Sqfs.Proofs.FragDedup
 import Sqfs.Proofs.ToyCodec
 import Sqfs.Proofs.C08Stream
+import Sqfs.Proofs.C08Shift
 namespace Sqfs.C08
 
 section BlockWriterPart
@@ -129,6 +130,19 @@ theorem bw_checksum_irrelevant (h1 h2 : Bytes → UInt32) (pre : Bytes) (cs : Li
   obtain ⟨s2, hr2, hf2⟩ := bw_refines_spec h2 pre cs hsz
   exact ⟨s1, s2, _, hr1, hr2, by rw [hf1, hf2]⟩
 
+/-- **Translation invariance.** Putting `pad` in front of what the file holds moves the whole run `|pad|` bytes up and
+changes nothing else: same success or error, every returned location is the old one plus `|pad|` — except the literal `0`
+a `LAST` call returns for a file that stored nothing (`*out = 0` in C) —, the file is `pad` followed by the old file,
+the history is the old one with shifted offsets.  For **every** call sequence and checksum (no protocol assumption).
+This is what lets the correspondence check drive the real writer at file offsets around 4 GiB (a harness file that
+pretends to have 2^32 − k zero bytes in front) and compare with the model run at offset 0. -/
+theorem bw_translate (pad pre : Bytes) (cs : List Call) :
+    run (init (pad ++ pre)) cs =
+      (match run (init pre) cs with
+       | .error e => .error e
+       | .ok (s0, locs0) => .ok (shiftState pad s0, shiftLocs pad.length (emptiesOf (init pre) cs) locs0)) := by
+  rw [init_shift]; exact run_shift pad cs (init pre)
+
 /-! ### the hypotheses are satisfiable, the conclusions are not trivial
 
 `AB`, `AB'`: two different two-byte blocks that get the *same* size word and the same checksum `7`.
@@ -155,6 +169,10 @@ example : (run (init []) exCalls).toOption.map (fun r => (r.2, r.1.file)) =
 
 /-- the same run through the specification (no checksums) -/
 example : (specRun ⟨[], [], 0⟩ (exCalls.map (fun c => (c.flags, c.data)))).2 = [0, 2, 2, 4, 6, 2] := by decide
+
+/-- `bw_translate` on the example: three bytes in front move every location by 3 -/
+example : (run (init [9, 9, 9]) exCalls).toOption.map (fun r => (r.2, r.1.file)) =
+    some ([3, 5, 5, 7, 9, 5], [9, 9, 9, 0x41, 0x43, 0x41, 0x42, 0x41, 0x42, 0x41, 0x42]) := by decide
 
 /-- `wf` is needed: a `LAST` without a `FIRST` directly after a `DONT_DEDUPLICATE` file cuts that file's own
 copy away (API misuse the block processor never commits). -/
